@@ -32,3 +32,5 @@ def pool_part(ctx, tier):
     except Exception:
         return
     pool.stats_part(ctx, tier)
+    from props import adaptive
+    adaptive.stats_part(ctx, tier)
